@@ -5,7 +5,8 @@
 From Coq Require Import PrimFloat QArith Qabs Sorting.Permutation.
 From EsVerif.Common Require Import Base.
 From EsVerif.C05 Require Import Model Spec.
-From EsVerif.C14 Require Import Model Spec NumProofs StatProofs Proofs NumBinProofs NumModelProofs.
+From EsVerif.C14 Require Import Model Spec NumProofs StatProofs Proofs NumBinProofs NumModelProofs FiniteProofs ApiProofs.
+Require EsVerif.C14.IntQuotProofs EsVerif.C14.Exec.
 
 (* ------------------------------------------------------------------ members of a bin *)
 (* binsize/nbin mode: slice i of the reverse indices computed by the model holds exactly the
@@ -179,6 +180,254 @@ Theorem C14_werr_unpatched_refuted :
 Proof.
   exists 2.5%float. split; [vm_compute; reflexivity|].
   intros [_ H]. vm_compute in H. destruct H as [_ [_ [[H|H] _]]]; apply H; reflexivity.
+Qed.
+
+(* ================================================================== proof-deepening round *)
+(* ------------------------------------------------------------------ nothing monitored: finite data *)
+(* The contracts of C14_stats_are_of_members / C14_nperbin_spec (stable order of the sort index,
+   selection = data within the limits, truncation = floor, monotone bin numbers) are theorems for
+   finite data and limits (C05's Flocq-based facts).  These two statements depend on the standard
+   library's FloatAxioms and real-number axioms; everything else in this file does not. *)
+Theorem C14_binned_holds_finite : forall c rv lo hi m b o rows,
+  binner true c rv lo hi m = Ok b -> dorev c rv = true -> cols_ok c = true ->
+  finite_opt lo = true -> finite_opt hi = true ->
+  histogram EngC (c_x c) lo hi m = Ok o -> params_ok (o_params o) = true ->
+  rows_meet rows (b_rows b) = true ->
+  let p := o_params o in
+  stats_ok (members (c_x c) lo hi (p_dmin p) (p_bsize p)) (p_nbin p) c rows.
+Proof. exact binned_holds_finite. Qed.
+
+Theorem C14_nperbin_holds_finite : forall c lo hi k merge b rows,
+  binner_num true c lo hi k merge = Ok b -> cols_ok c = true ->
+  finite_opt lo = true -> finite_opt hi = true -> 1 <= k ->
+  rows_meet rows (n_rows b) = true ->
+  num_ok c lo hi k merge (n_hist b) (n_rev b) (n_low b) (n_high b) rows.
+Proof. exact nperbin_holds_finite. Qed.
+
+(* ------------------------------------------------------------------ the call as a whole *)
+(* which of binsize= / nbin= / nperbin= wins (Binner.dohist and histogram() differ) *)
+Theorem C14_keyword_precedence :
+  (forall h bs nb k, resolve h bs nb (Some k) = CNum k)
+  /\ (forall bs n, resolve true bs (Some n) None = CMode (ByNbin n))
+  /\ (forall b, resolve true (Some b) None None = CMode (ByBinsize b))
+  /\ resolve true None None None = CMode (ByBinsize 1%float)
+  /\ (forall b nb, resolve false (Some b) nb None = CMode (ByBinsize b))
+  /\ (forall n, resolve false None (Some n) None = CMode (ByNbin n))
+  /\ resolve false None None None = CNone.
+Proof. exact keyword_precedence. Qed.
+
+Theorem C14_api_dispatch : forall p h c rv lo hi bs nb k merge,
+  (forall k', k = Some k' ->
+     binner_api p h c rv lo hi bs nb k merge
+     = match binner_num p c lo hi k' merge with Ok n => Ok (ANum n) | Err e => Err e end)
+  /\ (forall m, resolve h bs nb k = CMode m ->
+        binner_api p h c rv lo hi bs nb k merge
+        = match binner p c rv lo hi m with Ok b => Ok (ABinned b) | Err e => Err e end)
+  /\ (resolve h bs nb k = CNone -> forall a, binner_api p h c rv lo hi bs nb k merge <> Ok a).
+Proof. exact api_dispatch. Qed.
+
+(* ------------------------------------------------------------------ rejections *)
+(* the min/max selection as a table: IndexError on empty data when a limit is taken from the
+   data, ValueError on an empty selection, nothing else *)
+Theorem C14_limits_outcome : forall x s lo hi,
+  limits x s lo hi =
+  match s, lo, hi with
+  | [], None, _ => Err EIndex
+  | [], Some _, None => Err EIndex
+  | _, None, None => Ok (eff_min x s lo, eff_max x s hi, s)
+  | _, _, _ =>
+      match filter (fun k => within (eff_min x s lo) (eff_max x s hi) (fget x k)) s with
+      | [] => Err EValue
+      | w => Ok (eff_min x s lo, eff_max x s hi, w)
+      end
+  end.
+Proof. exact limits_outcome. Qed.
+
+(* nperbin entry: rejected exactly for columns of different lengths (ValueError), a rejected
+   selection (its class), nperbin < 1 (outside the statement; the model says EOther) *)
+Theorem C14_binner_num_outcome : forall p c lo hi k merge,
+  (same_len c = false -> binner_num p c lo hi k merge = Err EValue)
+  /\ (same_len c = true -> forall e, limits (c_x c) (argsort (c_x c)) lo hi = Err e ->
+        binner_num p c lo hi k merge = Err e /\ (e = EIndex \/ e = EValue))
+  /\ (same_len c = true -> forall t, limits (c_x c) (argsort (c_x c)) lo hi = Ok t ->
+        if k <? 1 then binner_num p c lo hi k merge = Err EOther
+        else exists b, binner_num p c lo hi k merge = Ok b).
+Proof. exact binner_num_outcome. Qed.
+
+(* binsize/nbin entry: additionally nbin = 0 (ZeroDivisionError) and a negative number of bins
+   (np.zeros) *)
+Theorem C14_binner_outcome : forall p c rv lo hi m,
+  (same_len c = false -> binner p c rv lo hi m = Err EValue)
+  /\ (same_len c = true -> forall e, limits (c_x c) (argsort (c_x c)) lo hi = Err e ->
+        binner p c rv lo hi m = Err e /\ (e = EIndex \/ e = EValue))
+  /\ (same_len c = true -> forall dmin dmax w, limits (c_x c) (argsort (c_x c)) lo hi = Ok (dmin, dmax, w) ->
+        match derive dmin dmax m with
+        | Err e => binner p c rv lo hi m = Err e /\ m = ByNbin 0 /\ e = EOther
+        | Ok (bs, nbin) =>
+            if nbin <? 0 then binner p c rv lo hi m = Err EValue
+            else exists b, binner p c rv lo hi m = Ok b
+        end).
+Proof. exact binner_outcome. Qed.
+
+(* ------------------------------------------------------------------ history *)
+(* The Binner object as a step function on its dictionary (the keys calc_stats tests) and its
+   cached sort index: after ANY sequence of calls the next call answers like a fresh Binner. *)
+Theorem C14_history_irrelevant : forall p c cls cl,
+  snd (obj_call p true (obj_run p true (obj_new c) cls) cl) = fresh_answer p c cl.
+Proof. exact history_irrelevant. Qed.
+
+Theorem C14_sortcache_invariant : forall p cl cls c,
+  o_sortcache (obj_run p cl (obj_new c) cls) = None
+  \/ o_sortcache (obj_run p cl (obj_new c) cls) = Some (argsort (c_x c)).
+Proof. exact sortcache_invariant. Qed.
+
+(* ... and the fresh answer is the functional model the other theorems are about *)
+Theorem C14_fresh_answer_binned : forall p c rv lo hi m b,
+  binner p c rv lo hi m = Ok b ->
+  exists d, fresh_answer p c (CallBinned rv lo hi m) = Ok d
+    /\ d_hist d = Some (b_hist b) /\ d_nperbin d = None /\ d_lowhigh d = None
+    /\ d_edges d = Some (b_edges b)
+    /\ d_rev d = (if dorev c rv then Some (b_rev b) else None)
+    /\ d_rows d = (if dorev c rv then Some (b_rows b) else None).
+Proof. exact fresh_answer_binned. Qed.
+
+Theorem C14_fresh_answer_num : forall p c lo hi k merge n,
+  binner_num p c lo hi k merge = Ok n ->
+  exists d, fresh_answer p c (CallNum lo hi k merge) = Ok d
+    /\ d_hist d = Some (n_hist n) /\ d_rev d = Some (n_rev n) /\ d_nperbin d = Some k
+    /\ d_lowhigh d = Some (n_low n, n_high n) /\ d_edges d = None
+    /\ d_rows d = Some (n_rows n).
+Proof. exact fresh_answer_num. Qed.
+
+(* what self.clear() is for (the mechanism of seeded change C14-e): without it a binsize call after
+   an nperbin call keeps the stale nperbin key and reports no edges or centres *)
+Theorem C14_no_clear_refuted :
+  let c := mkCols [5; 1; 4; 2; 3; 9; 7]%float None None in
+  let cl1 := CallNum None None 3 true in
+  let cl2 := CallBinned true None None (ByBinsize 2%float) in
+  (exists d, snd (obj_call true false (fst (obj_call true false (obj_new c) cl1)) cl2) = Ok d
+             /\ d_edges d = None /\ d_nperbin d = Some 3 /\ d_hist d = Some [2; 2; 1; 1; 1])
+  /\ (exists d, fresh_answer true c cl2 = Ok d /\ d_nperbin d = None
+                /\ exists e, d_edges d = Some e /\ length e = 5%nat).
+Proof. exact no_clear_refuted. Qed.
+
+(* the comparison of a reported float with a target is decided exactly (sound AND complete) *)
+Theorem C14_meets_iff : forall f t, meets f t = true <-> Meets f t.
+Proof. exact meets_iff. Qed.
+
+(* every call form (any combination of the three keywords, Binner or histogram()): an accepted call on
+   finite data satisfies the property of the binning mode that wins *)
+Theorem C14_api_holds_finite : forall h c rv lo hi bs nb k merge a rows,
+  binner_api true h c rv lo hi bs nb k merge = Ok a -> cols_ok c = true ->
+  finite_opt lo = true -> finite_opt hi = true ->
+  match a with
+  | ANum n => exists k', resolve h bs nb k = CNum k' /\
+      (1 <= k' -> rows_meet rows (n_rows n) = true ->
+       num_ok c lo hi k' merge (n_hist n) (n_rev n) (n_low n) (n_high n) rows)
+  | ABinned b => exists m, resolve h bs nb k = CMode m /\
+      (dorev c rv = true -> forall o, histogram EngC (c_x c) lo hi m = Ok o -> params_ok (o_params o) = true ->
+       rows_meet rows (b_rows b) = true ->
+       stats_ok (members (c_x c) lo hi (p_dmin (o_params o)) (p_bsize (o_params o))) (p_nbin (o_params o)) c rows)
+  end.
+Proof. exact api_holds_finite. Qed.
+
+(* a Binner that has been through ANY sequence of calls answers the next accepted call on finite data
+   with a dictionary that satisfies the property and carries exactly the keys of that binning mode *)
+Theorem C14_object_holds_finite : forall c cls cl d,
+  snd (obj_call true true (obj_run true true (obj_new c) cls) cl) = Ok d -> cols_ok c = true ->
+  match cl with
+  | CallNum lo hi k merge =>
+      finite_opt lo = true -> finite_opt hi = true -> 1 <= k ->
+      exists hist rev low high rowsT,
+        d_hist d = Some hist /\ d_rev d = Some rev /\ d_lowhigh d = Some (low, high) /\ d_rows d = Some rowsT
+        /\ d_nperbin d = Some k /\ d_edges d = None
+        /\ forall rows, rows_meet rows rowsT = true -> num_ok c lo hi k merge hist rev low high rows
+  | CallBinned rv lo hi m =>
+      finite_opt lo = true -> finite_opt hi = true -> dorev c rv = true ->
+      forall o, histogram EngC (c_x c) lo hi m = Ok o -> params_ok (o_params o) = true ->
+      exists rowsT, d_rows d = Some rowsT /\ d_nperbin d = None /\ d_lowhigh d = None
+        /\ d_edges d = Some (edges (p_dmin (o_params o)) (p_bsize (o_params o)) (Z.of_nat (length (o_hist o))))
+        /\ forall rows, rows_meet rows rowsT = true ->
+             stats_ok (members (c_x c) lo hi (p_dmin (o_params o)) (p_bsize (o_params o))) (p_nbin (o_params o)) c rows
+  end.
+Proof. exact object_holds_finite. Qed.
+
+(* exactly which selections are rejected, stated on the DATA (finite): IndexError for empty data when a
+   limit has to be taken from them, ValueError when no datum lies within the limits, otherwise the
+   selection is the data within the limits in stable sorted order *)
+Theorem C14_selection_outcome : forall x lo hi, forallb finite_f x = true ->
+  let sel := filter (fun k => in_limits lo hi (fget x k)) (argsort x) in
+  match x, lo, hi with
+  | [], None, _ => limits x (argsort x) lo hi = Err EIndex
+  | [], Some _, None => limits x (argsort x) lo hi = Err EIndex
+  | _, _, _ =>
+      match sel with
+      | [] => limits x (argsort x) lo hi = Err EValue
+      | _ => limits x (argsort x) lo hi = Ok (eff_min x (argsort x) lo, eff_max x (argsort x) hi, sel)
+      end
+  end.
+Proof. exact selection_outcome. Qed.
+
+(* ------------------------------------------------------------------ the binary64 bin number of a position *)
+(* np.int64(float(i) / float(k)) = i // k for ALL 0 <= i < 2^53, 1 <= k < 2^53 (correct rounding of the
+   division + its relative error bound, Flocq): the model's integer quotient is what _do_hist computes.
+   Replaces the monitor that the harness evaluated for every (n, nperbin) it explored. *)
+Theorem C14_int_quotient_exact : forall i k,
+  0 <= i < 9007199254740992 -> 1 <= k < 9007199254740992 ->
+  f2z_trunc (PrimFloat.div (float_of_Z i) (float_of_Z k)) = i / k.
+Proof. exact IntQuotProofs.int_quot_exact. Qed.
+
+Theorem C14_binnum_positions : forall n k i,
+  Z.of_nat n < 9007199254740992 -> 1 <= k < 9007199254740992 -> 0 <= i < Z.of_nat n ->
+  binnum (map float_of_Z (zseq 0 n)) 0%float (float_of_Z k) i = i / k.
+Proof. exact IntQuotProofs.binnum_positions. Qed.
+
+Theorem C14_nperbin_monitor_holds : forall n k,
+  1 <= n < 9007199254740992 -> 1 <= k < 9007199254740992 -> Exec.nperbin_monitor n k = true.
+Proof. exact IntQuotProofs.nperbin_monitor_holds. Qed.
+
+(* the literal binary64 transcription of _hist_by_num (float positions, float(nperbin), nbin from the
+   float quotient, C05's bit-exact bin numbers) is the integer model of C14_hist_by_num_spec *)
+Theorem C14_hist_by_num_float_model : forall x wsort k merge,
+  1 <= k < 9007199254740992 -> wsort <> [] -> Z.of_nat (length wsort) < 9007199254740992 ->
+  hist_by_num_f x wsort k merge = hist_by_num x wsort k merge.
+Proof. exact IntQuotProofs.hist_by_num_f_eq. Qed.
+
+Example C14_nonvacuous_quotient :
+  Exec.nperbin_monitor 100 49 = true
+  /\ hist_by_num_f [5; 1; 4; 2; 3; 9; 7]%float [1; 3; 4; 2; 0; 6; 5] 3 true
+     = ([3; 4], [3; 6; 10; 1; 3; 4; 2; 0; 6; 5], [1; 4]%float, [3; 9]%float).
+Proof. split; vm_compute; reflexivity. Qed.
+
+(* what the statistics checker decides, exactly: every reported row meets the targets of the model's
+   per-bin function on the members taken from the data *)
+Theorem C14_stats_check_exact : forall mem nbin c rows,
+  stats_check mem nbin c rows = true <->
+  (Z.of_nat (length rows) = nbin
+   /\ forall i, 0 <= i < nbin -> Forall2 Meets (nth (Z.to_nat i) rows []) (row_at true (qcols_of c) (mem i))).
+Proof. exact stats_check_exact. Qed.
+
+(* non-vacuity of the new statements: finite data with a sane bin specification; one input of
+   every rejection class; a history with a failing call in it *)
+Example C14_nonvacuous_deepening :
+  let c := mkCols [0.5; 1.5; 1.75; 2.5]%float None (Some [2; 3; 4; 5]%float) in
+  (exists o, histogram EngC (c_x c) None None (ByBinsize 1%float) = Ok o /\ params_ok (o_params o) = true
+             /\ cols_ok c = true /\ finite_opt (Some 0.5%float) = true)
+  /\ same_len (mkCols [1; 2]%float (Some [1]%float) None) = false
+  /\ limits [] (argsort []) None None = Err EIndex
+  /\ limits [1; 2]%float (argsort [1; 2]%float) (Some 5%float) None = Err EValue
+  /\ binner_num true c None None 0 true = Err EOther
+  /\ binner true c true None None (ByNbin 0) = Err EOther
+  /\ binner true c true None None (ByNbin (-1)) = Err EValue
+  /\ (exists a, binner_api true true c true None None None None None true = Ok a)
+  /\ binner_api true false c true None None None None None true = Err EValue
+  /\ (exists d, snd (obj_call true true
+                       (obj_run true true (obj_new c)
+                          [CallNum None None 2 true; CallBinned true (Some 9%float) None (ByNbin 2); CallNum None None 0 false])
+                       (CallBinned false None None (ByNbin 2))) = Ok d /\ d_nperbin d = None /\ d_hist d = Some [1; 2]).
+Proof.
+  intro c. split; [eexists; split; [vm_compute; reflexivity|]; vm_compute; repeat split; reflexivity|].
+  repeat split; try (vm_compute; reflexivity); eexists; vm_compute; repeat split; reflexivity.
 Qed.
 
 (* ------------------------------------------------------------------ non-vacuity *)
